@@ -587,7 +587,14 @@ Section Cfg.
      still holds it, may apply further operations to it through its own reference (dops) and offers it again.  An object
      that was taken lives in the tree from then on (the same operation addressed below its slot); offering it a second
      time would put one object in two places, which this model does not cover: Unmodelled. *)
-  | XAgain (r : objroute) (k : str) (dops : list (list pstep * cop)).
+  | XAgain (r : objroute) (k : str) (dops : list (list pstep * cop))
+  (* a configuration that is NOT detached: the one found at path `from` below the ROOT of the history (an item of another
+     list, of a list in a sibling sub-configuration, ...) is offered as it is, by route r, at key k of the addressed
+     configuration.  Refused: nothing moves anywhere (the offered item stays where it was).  Taken: the code does not remove
+     it from where it was, so one object is then reachable at two paths; the state says so (the same value, identity
+     included, in both places), but later steps of this model treat the two as separate values -- the correspondence uses
+     this operation as the last step of a history only. *)
+  | XFrom (r : objroute) (k : str) (from : list pstep).
 
   Fixpoint run_detached (dops : list (list pstep * cop)) (w : world) (c : cfg) (sdyn : bool) (svs : list N)
            (sfs : list (str * node)) : world * cfg :=
@@ -605,18 +612,44 @@ Section Cfg.
     | RSetIdx i => CSetIdxObj k i src
     | RInsert i => CInsertObj k i src
     end.
+  (* the configuration found at a path below c (read only) *)
+  Fixpoint cfg_at (ps : list pstep) (c : cfg) (fs : list (str * node)) {struct ps} : option cfg :=
+    match ps with
+    | [] => Some c
+    | PKey k :: r =>
+        match fget k fs, dget k (c_data c) with
+        | Some (NSub _ _ fs'), Some (VCfg sub) => cfg_at r sub fs'
+        | _, _ => None
+        end
+    | PItem k i :: r =>
+        match fget k fs, dget k (c_data c) with
+        | Some (NCfgList _ _ fs' _), Some (VList l) =>
+            match nth_error l i with Some it => cfg_at r it fs' | None => None end
+        | _, _ => None
+        end
+    end.
+
   (* stateless reading (no object kept from earlier steps: XAgain has nothing to offer) *)
   Definition resolve (w : world) (x : xop) : world * option cop :=
     match x with
     | XOp o => (w, Some o)
     | XObj r k sdyn svs sfs dops => let '(w1, src) := detached w sdyn svs sfs dops in (w1, Some (obj_cop r k src))
     | XAgain _ _ _ => (w, None)
+    | XFrom _ _ _ => (w, None)                    (* needs the configuration: at_path_x *)
     end.
   Definition at_path_x (ps : list pstep) (w : world) (pre : str) (c : cfg) (dynamic : bool) (vs : list N)
              (fs : list (str * node)) (x : xop) : world * cfg * oc :=
-    match resolve w x with
-    | (w1, Some o) => at_path ps w1 pre c dynamic vs fs o
-    | (w1, None) => (w1, c, OUnm)
+    match x with
+    | XFrom r k from =>
+        match cfg_at from c fs with
+        | Some src => at_path ps w pre c dynamic vs fs (obj_cop r k src)
+        | None => (w, c, ONav)
+        end
+    | _ =>
+        match resolve w x with
+        | (w1, Some o) => at_path ps w1 pre c dynamic vs fs o
+        | (w1, None) => (w1, c, OUnm)
+        end
     end.
 
   (* histories: the object the caller still holds (with the schema it was built from) is threaded from step to step *)
@@ -638,6 +671,11 @@ Section Cfg.
             let '(w2, c1, o1) := at_path ps w1 pre c dynamic vs fs (obj_cop r k src) in
             (w2, keep_if_refused o1 src (sdyn, svs, sfs), c1, o1)
         | None => (w, None, c, OUnm)
+        end
+    | XFrom r k from =>
+        match cfg_at from c fs with
+        | Some src => let '(w1, c1, o1) := at_path ps w pre c dynamic vs fs (obj_cop r k src) in (w1, last, c1, o1)
+        | None => (w, last, c, ONav)
         end
     end.
 
@@ -766,3 +804,4 @@ Arguments NCfgList {F} required vals fields dflt.
 Arguments XOp {F} o.
 Arguments XObj {F} r k sdyn svs sfs dops.
 Arguments XAgain {F} r k dops.
+Arguments XFrom {F} r k from.
